@@ -523,6 +523,7 @@ def showErrs (l : List (Option Err)) : String :=
   `c17.read px pxUm lt [idx|t|c|count|mindur,…]`   import of a hand-written file
   `c17.prog px pxUm lt T C M K op…`                errors per op and the final group
   `c17.refine T C M K`                             scan lines of each centroid-refined track
+  `c17.refine2 T C M K`                            scan lines of each track after refining the refined tracks again
   `c17.gauss skip w missing T C M K`               scan lines + minimum duration of each Gaussian-refined track
   `c17.fmt6 p/q`                                   value printed by `%.6e`
   `c17.sample w off img t c`                       `_sum_track_signal` of one node  -/
@@ -563,6 +564,10 @@ def handle : List String → Option String
   | ["c17.refine", t, c, m, k] => do
     let g ← group? t c m k
     some (showListList showInt (refineSpan g) ++ " " ++ showList showOptRat (g.map (·.minDur)))
+  | ["c17.refine2", t, c, m, k] => do
+    let g ← group? t c m k
+    some (showListList showInt (refineSpan (refineCentroid (fun _ c => c) (fun _ _ => 0) g)) ++ " " ++
+      showList showOptRat (g.map (·.minDur)))
   | ["c17.gauss", skip, w, missing, t, c, m, k] => do
     let skip ← bool? skip; let w ← int? w; let missing ← bool? missing
     let g ← group? t c m k
